@@ -327,6 +327,7 @@ def run_case(case, seed, steps, rng, inject=False, two_phase=False):
         rec.wrap_block(b)
     saved = (np.random.normal, np.random.gamma, SC.sample_mvn_from_precision)
     np.random.normal, np.random.gamma, SC.sample_mvn_from_precision = rec.normal, rec.gamma, rec.mvn
+    exported = []
     try:
         for step in range(steps):
             if inject and step == 1:
@@ -342,6 +343,7 @@ def run_case(case, seed, steps, rng, inject=False, two_phase=False):
                 return "step %d: %s" % (step + 1, msg)
             # exported posterior sample reproduces the sampler's fitted values and noise precision
             th = model.get_model_state()
+            exported.append((step + 1, th, {nm: np.array(getattr(th, nm), dtype=float, copy=True) for nm in ("W", "W0", "V0", "V1", "V2")}, float(th.alpha), float(th.precision)))
             if float(th.precision) != float(wm.prec):
                 return "exported precision %r differs from the sampler's %r" % (th.precision, wm.prec)
             for name in ("W", "W0", "V0", "V1", "V2"):
@@ -354,6 +356,13 @@ def run_case(case, seed, steps, rng, inject=False, two_phase=False):
                     mu = mu[perm]          # (fitted values in the order of the dataset, as the prediction on the screen is)
                 if not np.allclose(pm, mu, rtol=0, atol=EPS * (1 + np.abs(mu).max() + sum(np.abs(np.asarray(getattr(wm, k), dtype=float)).max() ** 2 for k in ("W", "V1", "V2")) * D)):
                     return "exported sample predicts %s on the training data, the sampler's fitted values are %s" % (pm, mu)
+        # a posterior sample exported after step k is the state after step k for good: later sweeps do not reach into it
+        for k_, th_, arrs, al_, pr_ in exported:
+            for nm, a_ in arrs.items():
+                if not np.array_equal(np.asarray(getattr(th_, nm), dtype=float), a_):
+                    return "the sample exported after step %d no longer holds the %s it was exported with (changed by a later sweep)" % (k_, nm)
+            if float(th_.alpha) != al_ or float(th_.precision) != pr_:
+                return "the sample exported after step %d no longer holds the alpha / precision it was exported with" % k_
     finally:
         np.random.normal, np.random.gamma, SC.sample_mvn_from_precision = saved
     return None
